@@ -14,6 +14,7 @@ C09  R9.20 match_daemons            selection "handler id not among the matching
      R9.27 aiotime.sleep            (= R10.20) the stopper's event interrupts the sleep
      R9.28 Scheduler.close/wait/empty (= R20.25) the killer's `wait()` really waits for every stopper
 C10  R10.20 aiotime.sleep           sleeps min(non-None delays); nothing/non-positive => no sleep; None when slept in full, remaining time when woken
+     (R9.28/R20.25/R1.20 also: spawn() queues nothing once closed; the spawner cancels what it starts after the close)
 C20  R20.20 aiotasks.stop           cancels all, loops until none is pending, accumulates the done set, re-raises its own cancellation, flags log-only
      R20.21 aiotasks.wait           empty => two empty sets without asyncio.wait; else timeout/return_when forwarded, (done, pending) in order
      R20.22 aiotasks.all_tasks      all tasks of the loop except the current one and the ignored ones
@@ -32,7 +33,7 @@ from __future__ import annotations
 
 import ast
 import re
-from typing import Callable, Iterable, Optional
+from typing import Iterable, Optional
 
 from .. import absint
 from ..core import Ctx
@@ -272,12 +273,12 @@ def _ret_truth(p: absint.Path) -> Optional[bool]:
 
 def _leaves(v: absint.V) -> set:
     """Keys of the values a concatenation / copy of collections is built from."""
-    if v.kind == 'coll' and isinstance(v.data, tuple) and len(v.data) == 2 and v.data[0] in ('concat', 'alias'):
+    if v.kind == 'coll' and isinstance(v.data, tuple) and len(v.data) == 2 and v.data[0] in ('concat', 'alias', 'display'):
         out: set = set()
         for x in v.data[1]:
             out |= _leaves(x)
         return out
-    return {v.key}
+    return {v.key.lstrip('*')}
 
 
 def no_abnormal(a, b) -> bool:
@@ -529,7 +530,7 @@ def check_delays_flow(ctx: Ctx, rule: str) -> None:
             continue
         rows.add(tuple(e.label for e in effs))
         got = _leaves(p.retval)
-        miss = [e.label[2:] for e in effs if e.key not in got]
+        miss = [e.label[2:] for e in effs if e.key not in got and e.key not in p.retval.key]
         if miss:
             bad.append(f'the delays of {", ".join(miss)} are dropped from the returned `{p.retval.key[:60]}`')
     ctx.count('paths', len(paths))
@@ -706,7 +707,7 @@ def check_sleep(ctx: Ctx, rule: str) -> None:
     def eff(it, p, call, names):
         if 'asyncio.wait_for' in names or 'asyncio.tasks.wait_for' in names:
             return 'wait_for'
-        if any(n in ('asyncio.sleep', 'asyncio.wait') for n in names) or (isinstance(it.m.parent.get(call), ast.Await) and 'wait_for' not in src(call.func)):
+        if any(n in ('asyncio.sleep', 'asyncio.wait') for n in names) or isinstance(it.m.parent.get(call), ast.Await):
             return 'other-wait'
         return None
     paths = absint.analyse(repo, f, absint.Config(effect=eff, raising={'asyncio.wait_for': ['asyncio.TimeoutError']}, record_writes=False))
@@ -717,7 +718,7 @@ def check_sleep(ctx: Ctx, rule: str) -> None:
         waits = p.effects('wait_for')
         if p.effects('other-wait'):
             bad.append('waits on something else than the interruptible wait_for')
-        ek = [k for k in p.atoms if k.startswith('truthy(') and ' for ' in k]
+        ek = [k for k in p.atoms if k.startswith('truthy(')]      # the only truthiness consulted: "is any delay given"
         some = p.atoms.get(ek[0]) if len(ek) == 1 else None
         lst = ek[0][len('truthy('):-1] if len(ek) == 1 else None
         zk = [k for k in p.atoms if lst is not None and k == f'cmp(0, min({lst}))']
@@ -1056,6 +1057,29 @@ def check_scheduler_close(ctx: Ctx, rule: str) -> None:
         got = {x.attr for x in (a.elts if isinstance(a, (ast.Set, ast.List, ast.Tuple)) else []) if isinstance(x, ast.Attribute) and dotted(x.value) == me}
         ctx.ob(rule, 'Scheduler.close: both meta-tasks created by the constructor are stopped (none is left behind as a hung task)', bool(meta) and got == meta,
                loc=f.loc(c), construct=construct(f, 'flow:stop(all meta-tasks)'), detail=f'stopped {sorted(got)}, created {sorted(meta)}')
+    # "closed" is honoured where coroutines enter: spawn() refuses, the spawner cancels what it still has to start (so that it is awaited, not run)
+    sp, sg = cfg_of(ctx, _sched(repo, 'spawn'))
+    sme = sp.params()[0].arg
+    puts = sg.stmt_nodes(lambda x: isinstance(x, ast.Call) and method_call(x, 'put') is not None and dotted(method_call(x, 'put')) == f'{sme}._pending_coros')
+    ctx.require_sites(rule, 'Scheduler.spawn: queueing of the coroutine', len(puts), 1, sp.loc())
+    for n in puts:
+        conds = [a for t, o, _ in dominating_conditions(sg, n) for a in (_cond_atoms(sp, t, o) or [(t, o)])]
+        ctx.ob(rule, 'Scheduler.spawn: nothing is queued once the scheduler is closed (a worker or stopper accepted after close() would never be cancelled or awaited)',
+               any(dotted(e) == f'{sme}._closed' and o is False for e, o in conds), loc=sp.loc(n.stmt), construct=construct(sp, 'guard:queue only if not closed'))
+    ts, tg = cfg_of(ctx, _sched(repo, '_task_spawner'))
+    tme = ts.params()[0].arg
+    creates = tg.stmt_nodes(lambda x: isinstance(x, ast.Call) and (repo.resolve(ts.module, x.func) or '').endswith('create_task'))
+    tv = {t.id for n in creates if isinstance(n.stmt, ast.Assign) for t in n.stmt.targets if isinstance(t, ast.Name)}
+    cancels = [n for n in tg.stmt_nodes(lambda x: isinstance(x, ast.Call) and method_call(x, 'cancel') is not None and dotted(method_call(x, 'cancel')) in tv)]
+    ok = bool(creates) and bool(cancels)
+    for n in cancels:
+        conds = [a for t, o, _ in dominating_conditions(tg, n) for a in (_cond_atoms(ts, t, o) or [(t, o)])]
+        ok = ok and any(dotted(e) == f'{tme}._closed' and o is True for e, o in conds)
+    closed_tests = {m for m in tg.nodes if m.kind == 'if' and any(dotted(x) == f'{tme}._closed' for x in ast.walk(m.stmt.test))}
+    skipped = [n for n in creates if any(h in tg.reach([n], stop=lambda m: m in closed_tests, edge_ok=no_abnormal)
+                                         for h in tg.nodes if h.kind == 'loop' and any(fr.kind == 'loop' and fr.stmt is h.stmt for fr in n.frames))]
+    ctx.ob(rule, 'Scheduler._task_spawner: a coroutine started after the scheduler was closed is cancelled at once -- on every path from the task\'s creation to the '
+           'next one the closed flag is consulted (close() cancels only what is already running)', ok and not skipped, loc=ts.loc(), construct=construct(ts, 'guard:cancel if closed'))
     # wait(): on the scheduler's condition, for empty()
     w, wg = cfg_of(ctx, _sched(repo, 'wait'))
     wme = w.params()[0].arg
@@ -1199,10 +1223,10 @@ def check_run_operator(ctx: Ctx, rule: str) -> None:
         ctx.ob(rule, 'run: every argument (stop_flag, ready_flag, the command, registry, settings, ...) reaches operator() under its own name -- a stop flag that '
                'is not handed on can never stop the operator', not miss, loc=r.loc(c), construct=construct(r, 'config:operator(**same names)'), detail=f'not forwarded: {miss}')
         tgt = [n.targets[0].id for n in walk_no_defs(r.node) if isinstance(n, ast.Assign) and n.value is c and isinstance(n.targets[0], ast.Name)]
-        runs = [x for x in calls_in(r.node) if (method_call(x, 'run_until_complete') is not None or (repo.resolve(r.module, x.func) or '') == 'asyncio.run')
-                and x.args and (x.args[0] is c or dotted(x.args[0]) in tgt)]
-        ctx.ob(rule, 'run: that coroutine is what the event loop runs to completion (the given loop, or a fresh asyncio.run)', len(runs) >= 2, loc=r.loc(),
-               construct=construct(r, 'flow:coroutine is run'), detail=f'{len(runs)} run sites')
+        runs = [x for x in calls_in(r.node) if x.args and (x.args[0] is c or dotted(x.args[0]) in tgt)]
+        all_runs = [x for x in calls_in(r.node) if method_call(x, 'run_until_complete') is not None or (repo.resolve(r.module, x.func) or '') == 'asyncio.run']
+        ctx.ob(rule, 'run: that coroutine is what the event loop runs to completion (the given loop, or a fresh asyncio.run)', len(runs) >= 1 and all(x in runs for x in all_runs),
+               loc=r.loc(), construct=construct(r, 'flow:coroutine is run'), detail=f'{len(runs)} of {len(all_runs)} run sites get the operator coroutine')
     hs = [(t, h) for t in walk_no_defs(r.node) if isinstance(t, ast.Try) for h in t.handlers]
     wide = [c for t, h in hs if not _reraises(h) for c in _handler_classes(repo, r, h) if not _is_cancel_class(c)]
     ctx.ob(rule, 'run: only the cancellation of the operator is swallowed -- the failure re-raised by run_tasks leaves the run call as an exception', not wide,
